@@ -42,6 +42,7 @@ MAP = [  # (substring of the commit subject, property)
  ("bare methods over the dict protocols crashed on a simple-typed argument", "C10"),
  ("Date type with a custom format raised AttributeError", "C10"),
  ("duration too large for timedelta escaped", "C10"),
+ ("fault message quoting request text that XML cannot carry crashed", "C10"),
  ("msgpack-rpc method name that is not valid UTF-8 escaped", "C10"),
  ("MessagePack bytes that are not valid text for a Unicode member escaped", "C10"),
  ("processing instruction inside a complex element crashed deserialization", "C10"),
